@@ -68,7 +68,7 @@ func FuzzC20(f *testing.F) {
 		if len(in) > 1<<20 {
 			return
 		}
-		which := int(sel>>2) // selects the profile / provider / read-cut pattern
+		which := int(sel >> 2) // selects the profile / provider / read-cut pattern
 		switch sel & 3 {
 		case 0:
 			p := profiles[which%len(profiles)]
